@@ -169,7 +169,7 @@ fn session_case(t: &mut Tape, ctx: &Ctx, o: &mut Outcome) {
     let wrapper = t.below(5) == 0;
     let sched = gen_inf_schedule(t);
     if std::env::var("VERIF_DEBUG").is_ok() {
-        eprintln!("C06 session: {} data {} dict {:?} gz {} wrapper {} ops {:?}", plan.cfg.describe(), crate::json::hex(&plan.data[..plan.data.len().min(64)]), plan.dict.as_ref().map(|d| crate::json::hex(&d[..d.len().min(40)])), plan.gz.is_some(), wrapper, plan.ops);
+        eprintln!("C06 session: {} data[{}] {} dict[{:?}] {:?} gz {} wrapper {} ops {:?}", plan.cfg.describe(), plan.data.len(), crate::json::hex(&plan.data[..plan.data.len().min(64)]), plan.dict.as_ref().map(|d| d.len()), plan.dict.as_ref().map(|d| crate::json::hex(&d[..d.len().min(40)])), plan.gz.is_some(), wrapper, plan.ops);
     }
     ARENAS.with(|ar| {
         let run = if wrapper {
